@@ -55,7 +55,7 @@ Section FixedLibChoice.
   Hypothesis Hundo : f_undo (c_filter cfg) = true.
   Hypothesis Hincl : c_incl cfg = false.
 
-  Hypothesis U_id : forall b, In b U -> bid b <> 0 /\ bparent b <> 0 /\ bid b <> bparent b.
+  Hypothesis U_id : forall b, In b U -> bid b <> 0 /\ bid b <> bparent b.
   Hypothesis U_uniq : forall x y, In x U -> In y U -> bid x = bid y -> x = y.
   Hypothesis U_up : forall x y, In x U -> In y U -> bparent x = bid y -> bnum y < bnum x.
   Hypothesis L_id : ri r0 <> 0.
@@ -337,8 +337,10 @@ Section FixedLibChoice.
   Lemma noise_quiet s S b : Inv s S -> In b U -> Noise s b -> fk_step cfg s b = (s, [], ROk).
   Proof.
     intros HI Hb [Hd|Hk]; [exact (fk_step_dropped U cfg U_id s b Hb Hd)|].
-    pose proof HI as [Hnd HU _ _ _]. apply find_is_some_in in Hk as [e He].
-    exact (fk_step_old U cfg Hincl U_id U_uniq s b e HU Hb He (wf_of_U U U_id U_up _ Hnd HU)).
+    pose proof HI as [Hnd HU Hl Hlc _]. apply find_is_some_in in Hk as [e He].
+    pose proof (wf_of_U U U_id U_up _ Hnd HU) as Hwf.
+    assert (Hlz : ri (libref (db s)) <> 0) by (destruct Hl as [-> _]; exact L_id).
+    exact (fk_step_old U cfg Hincl U_id U_uniq s b e HU Hb He Hwf (stored_root_unsent U r0 U_uniq L_id _ b e HU Hb He Hwf Hlc) Hlz).
   Qed.
 
   (* a block the reference ignores completely is noise for the model *)
@@ -424,7 +426,9 @@ Section FixedLibChoice.
       pose proof HI as [Hnd HU Hl Hlc Hh].
       pose proof (wf_of_U U U_id U_up _ Hnd HU) as Hwf.
       destruct (find (bid b) (store (db s))) as [e|] eqn:Hf.
-      { rewrite (fk_step_old U cfg' Hincl U_id U_uniq s b e HU Hb Hf Hwf), (fk_step_old U cfg Hincl U_id U_uniq s b e HU Hb Hf Hwf).
+      { assert (Hlz : ri (libref (db s)) <> 0) by (destruct Hl as [-> _]; exact L_id).
+        pose proof (stored_root_unsent U r0 U_uniq L_id _ b e HU Hb Hf Hwf Hlc) as Hru.
+        rewrite (fk_step_old U cfg' Hincl U_id U_uniq s b e HU Hb Hf Hwf Hru Hlz), (fk_step_old U cfg Hincl U_id U_uniq s b e HU Hb Hf Hwf Hru Hlz).
         reflexivity. }
       pose proof (inv_add U r0 s S b HI Hb Hf) as HI1.
       set (s1 := with_db s (new_db (db s) b)) in *.
